@@ -374,7 +374,10 @@ static void run_api(void)
     for (int k = 1; k <= N; k++) {
         memset(&co[k], 0, sizeof co[k]);
         ctxval[k] = (void *)(uintptr_t)(0xC7000 + (uintptr_t)k);
-        cmi_coroutine_initialize(&co[k], (cmi_coroutine_func *)vx_entry_stub, ctxval[k], NULL, STACKSZ);
+        /* stack sizes that are and are not multiples of 16 (any size is valid): the entry alignment read by the
+         * probe must not depend on it */
+        static const size_t ODD[4] = { 0, 0, 8, 1 };
+        cmi_coroutine_initialize(&co[k], (cmi_coroutine_func *)vx_entry_stub, ctxval[k], NULL, STACKSZ + ODD[k & 3]);
     }
     /* every execution is a fresh program: the library's record of the main coroutine starts as it is created
      * (nobody has transferred into main yet), whatever earlier executions in this worker left in it */
